@@ -220,6 +220,44 @@ def c11_seq_2exons(genome: List[int], plus: bool, a0: int, b0: int, a1: int, b1:
     return _check_seq(genome, 1 if plus else -1, [(a0, b0), (a1, b1)], j)
 
 
+def _check_cdna(genome, strand, exons, j):
+    """CDS (cDNA) sequence of a transcript whose CDS pieces are its exons: equals the strand-corrected genome
+    at the mapped positions, pieces joined in transcript order"""
+    n = len(genome)
+    if not exons_valid(0, n, exons):
+        return SKIP
+    anno = anno_one_gene(0, n, strand, exons, cds=list(exons))
+    tm = anno.transcripts['T1']
+    tm.transcript.attributes['protein_id'] = 'P1'
+    cdna = tm.get_cdna_sequence(_chrom(genome))
+    cp = seq_points(cdna.seq)
+    ln = tx_len(exons)
+    if len(cp) != ln:
+        return -1
+    if 0 <= j < ln:
+        g = genomic_oracle(exons, strand, j)
+        base = genome[g] if strand == 1 else comp(genome[g])
+        if cp[j] != base:
+            return -2              # CDS base != strand-corrected genome at the mapped position
+    loc = cdna.locations[0]
+    if loc.query.start != 0 or loc.query.end != ln or loc.ref.start != 0 or loc.ref.end != ln:
+        return -5
+    return OK
+
+
+@cond('C11', bounds='CDS sequence: chromosome of length 8 (any letters), 2 CDS pieces (= the 2 exons) anywhere, both '
+      'strands', encodes=['moPepGen.gtf.TranscriptAnnotationModel.get_cdna_sequence / get_cds_start_index'],
+      codes=CODES2, timeout=500)
+def c11_cdna_2pieces(genome: List[int], plus: bool, a0: int, b0: int, a1: int, b1: int,
+                     j: int) -> int:
+    """
+    pre: len(genome) == 8
+    pre: all(65 <= c <= 90 for c in genome)
+    post: _ >= 0
+    """
+    return _check_cdna(genome, 1 if plus else -1, [(a0, b0), (a1, b1)], j)
+
+
 @cond('C11', bounds='chromosome of length 10 (any letters), 3 exons anywhere, both strands',
       encodes=ENC2, codes=CODES2, timeout=2400, tiers=('thorough',))
 def c11_seq_3exons(genome: List[int], plus: bool, a0: int, b0: int, a1: int, b1: int,
